@@ -292,7 +292,7 @@ def _frame(ctx, L, snapshot, prev, prev_snapshot, prev_index_snapshot, replaced=
         conj.append(ex(o.number_values) == ex(nv))
         conj.append(ex(o.data_size) == ex(ds))
     if prev is not None:
-        if len(prev.ordered_objects) != len(prev_snapshot) or any(a is not b for a, b in zip(prev.ordered_objects, prev_snapshot)):
+        if len(prev.ordered_objects) != len(prev_snapshot) or any(not _same_object(a, b, conj) for a, b in zip(prev.ordered_objects, prev_snapshot)):
             ctx.fail('step-frame-previous-list', before=[o.path for o in prev_snapshot], after=[o.path for o in prev.ordered_objects])
         if prev_index_snapshot is not None and dict(prev.object_index) != prev_index_snapshot:
             ctx.fail('step-frame-previous-index')
@@ -302,6 +302,17 @@ def _frame(ctx, L, snapshot, prev, prev_snapshot, prev_index_snapshot, replaced=
 
 def _t(x):
     return x if z3.is_expr(x) else ex(x)
+
+
+def _same_object(a, b, conj):
+    """a and b describe the same segment object (by value: another implementation may keep copies); numeric equalities go to conj"""
+    if a is b:
+        return True
+    if a is None or b is None or a.path != b.path or bool(a.has_data) != bool(b.has_data) or a.data_type is not b.data_type:
+        return False
+    conj.append(ex(a.number_values) == ex(b.number_values))
+    conj.append(ex(a.data_size) == ex(b.data_size))
+    return True
 
 
 def post_check(r, segment, prev, K, states, L, order, hd, idx, pre_N, nc, chunk, P, meta_len, lazy, prove, fail):
@@ -321,7 +332,7 @@ def post_check(r, segment, prev, K, states, L, order, hd, idx, pre_N, nc, chunk,
             if o.data_type is not None or o.has_data:
                 fail('step-undefined-object-has-index', path=o.path)
         # INV again: the reader's most recent object for the path is this one
-        if r._prev_segment_objects.get(o.path) is not o:
+        if not _same_object(r._prev_segment_objects.get(o.path), o, conj):
             fail('step-inv-most-recent-object', path=o.path)
     for k in range(K):
         p = PATHS[k]
@@ -336,7 +347,7 @@ def post_check(r, segment, prev, K, states, L, order, hd, idx, pre_N, nc, chunk,
             if got_t != want_t:
                 fail('step-total-data-type', path=p, got=got_t, expected=want_t)
         elif states[k] != 'unknown':
-            if r._prev_segment_objects.get(p) is not L[k]:
+            if not _same_object(r._prev_segment_objects.get(p), L[k], conj):
                 fail('step-inv-unlisted-object-replaced', path=p)
             conj.append(ex(r.object_metadata[p].num_values) == pre_N[k])
         else:
